@@ -105,6 +105,28 @@ Proof. destruct p; cbn [app]; [destruct s|]; reflexivity. Qed.
 Lemma whitespace_range l n : consume_whitespace l = Some n -> 0 <= n <= 1.
 Proof. unfold consume_whitespace. intros H. bind_inv H. destruct (is_ws x); some_inv H; lia. Qed.
 
+Lemma newline_range2 l n : consume_newline l = Some n -> 0 <= n <= 2.
+Proof.
+  unfold consume_newline. destruct (peekz l 0) as [c|]; [|discriminate]. cbn [option_bind].
+  destruct ((c =? 10) || (c =? 12)); [intros H; some_inv H; lia|].
+  destruct (c =? 13); [|intros H; some_inv H; lia].
+  destruct (peekz l 1) as [c1|]; [|discriminate]. cbn [option_bind]. destruct (c1 =? 10); intros H; some_inv H; lia.
+Qed.
+
+Lemma escape_ws_range l n : escape_ws l = Some n -> 0 <= n <= 2.
+Proof.
+  unfold escape_ws. intros H. bind_inv H. pose proof (newline_range2 _ _ E). destruct (0 <? x) eqn:Ex.
+  - some_inv H. lia.
+  - pose proof (whitespace_range _ _ H). lia.
+Qed.
+
+Lemma escape_ws_cut p s n : escape_ws (p ++ s ++ [0]) = Some n -> n <= len p -> escape_ws (p ++ [0]) = Some n.
+Proof.
+  unfold escape_ws. intros H Hn. bind_inv H. pose proof (len_nonneg p). destruct (0 <? x) eqn:Ex.
+  - some_inv H. rewrite (newline_cut _ _ _ E Hn). cbn [option_bind]. rewrite Ex. reflexivity.
+  - rewrite (newline_cut _ _ _ E) by lia. cbn [option_bind]. rewrite Ex. apply (whitespace_cut _ _ _ H Hn).
+Qed.
+
 (* consumeEscape: same result when the bytes after the escape are cut off; a failing escape also fails
    on every shorter input *)
 Lemma escape_cut p s e : consume_escape (p ++ s ++ [0]) = Some e -> e <= len p ->
@@ -126,10 +148,10 @@ Proof.
   destruct (is_hex c1); cbn [Z.ltb Z.compare tl] in *; cbv beta iota in *.
   - bind_inv H. bind_inv H. some_inv H.
     destruct (hex_upto_ok 5 (p ++ s)) as (k' & Hk' & Hk1 & _). rewrite <- app_assoc, E0 in Hk'. some_inv Hk'.
-    pose proof (whitespace_range _ _ E1) as Hx1.
+    pose proof (escape_ws_range _ _ E1) as Hx1.
     rewrite (hex_upto_cut _ _ _ _ E0) by (lens; lia). cbn [option_bind].
     rewrite skipz_app_l in E1 by (lens; lia). rewrite skipz_app_sent by (lens; lia).
-    rewrite (whitespace_cut _ _ _ E1) by (rewrite len_skipz by (lens; lia); lens; lia). reflexivity.
+    rewrite (escape_ws_cut _ _ _ E1) by (rewrite len_skipz by (lens; lia); lens; lia). reflexivity.
   - destruct (192 <=? c1).
     + bind_inv H. some_inv H. change (c1 :: p ++ s ++ [0]) with ((c1 :: p) ++ s ++ [0]) in E0.
       pose proof (rune_len_cut _ _ _ _ E0 ltac:(lens; lia)) as Hrl. cbn [app] in Hrl. rewrite Hrl. reflexivity.
